@@ -68,7 +68,12 @@ class Bucket:
             self.reset()
             return
         # the source code of the file changed, we need to reload
-        checksum = pickle.load(f)
+        try:
+            checksum = pickle.load(f)
+        except Exception:
+            # a truncated or otherwise corrupt entry is a cache miss
+            self.reset()
+            return
         if self.checksum != checksum:
             self.reset()
             return
